@@ -2,13 +2,14 @@
 import itertools
 from .. import common as C, structs as S, clientgen as G
 
-LEAN_MODULES = ["ZvtVerif.Properties.C07", "ZvtVerif.Properties.Traffic"]
+LEAN_MODULES = ["ZvtVerif.Properties.C07", "ZvtVerif.Properties.C07R", "ZvtVerif.Properties.Traffic"]
+NEEDS_RELEASE = True
 TRANSLATED = {"structs", "sequences", "errors"}      # translated tables this property consumes (a translator problem elsewhere does not break its tie)
 ASSUMPTIONS = ["fault-free transport (faults: C09/C10); the simulated terminal answers from per-command FIFO tables",
                "the abstract specification tools/clientgen.py:Abs (token -> receipt map) is the oracle; requests are assembled by the independent reference encoder"]
 
 
-def run_histories(ctx, out, cases, what, gap=None):
+def run_histories(ctx, out, cases, what, gap=None, release=False):
     """cases: list of (cfg, calls, queues, tserial, ttid). Compares implementation, model and abstract specification.
     `gap`: the terminal waits that many virtual seconds before each item it sends (slow but talking terminal).
     Implementation = model exactly (time stamps included); against the specification the time stamps are removed:
@@ -37,6 +38,15 @@ def run_histories(ctx, out, cases, what, gap=None):
         want.append(" | ".join(r + "@0" for r in res) + " || c0:" + ",".join(["open@0"] + G.expected_log(a.tx) + ["close@0"]))
     impl, model = ctx.pair(ops)
     out.compare("client(history)" + (" slow terminal" if gap else ""), ops, impl, model)
+    if release:
+        # the same histories through the RELEASE build of the client (no overflow checks, no debug assertions): a client whose
+        # behaviour depends on the build profile answers differently there
+        rel = ctx.harness(ops, release=True)
+        for o, r, rr, w in zip(ops, impl, rel, want):
+            if rr != r and rr != "unanswered":
+                out.oracle_failures.append({"op": o, "observed": "release build: " + rr[:400], "expected": "dev build: " + r[:400], "key": o[:300],
+                                            "what": f"{what}: the release build of the client (no overflow checks / debug assertions) does not behave like the dev build"})
+        out.count("also in the release build", len(ops))
     if gap:
         impl = [re.sub(r"@\d+", "@0", x) for x in impl]
     out.evaluations += len(ops)
@@ -213,7 +223,7 @@ def run(ctx, out):
             cases.append(mk(h, rng.choice([2, 3])))
             n_conf += 1
     out.count("confusable-token histories", n_conf)
-    ops, impl = run_histories(ctx, out, cases, "begin/commit/cancel history")
+    ops, impl = run_histories(ctx, out, cases, "begin/commit/cancel history", release=True)
     # the same histories against a slow but talking terminal (14 virtual seconds before every packet): nothing may change
     slow = rng.sample(cases, min(len(cases), 600 if thorough else 150))
     sops, _ = run_histories(ctx, out, slow, "begin/commit/cancel history, slow terminal", gap=14)
